@@ -156,6 +156,10 @@ func TestVerifC08Schema(t *testing.T) {
 	emit("opt_global_ty", optionalGlobalValuesType, "what OptionalGlobal.UnmarshalJSON decodes into (optional_global.go)")
 	emit("path_ty", reflect.TypeOf(Path{}), "conf.Path, as returned by the paths/get and pathdefaults/get endpoints")
 	emit("opt_path_ty", optionalPathValuesType, "what OptionalPath.UnmarshalJSON decodes into (optional_path.go)")
+	// the struct behind AlwaysAvailableTrack: encoding/json writes it field by field (there is no MarshalJSON),
+	// UnmarshalJSON decodes an alias of it with jsonwrapper and then validates
+	sb.WriteString("(* the struct behind conf.AlwaysAvailableTrack (codec CTrack): compared with C08_ConfCodecs.track_ty_model *)\n")
+	sb.WriteString("Definition track_ty : ty codec :=\n  " + tr.structTy(reflect.TypeOf(AlwaysAvailableTrack{}), "track_ty") + ".\n\n")
 	var names []string
 	for k, v := range tr.seen {
 		names = append(names, fmt.Sprintf("%s x%d", k, v))
